@@ -60,7 +60,17 @@ POOL = list("()[]{}\"'\\#:,.=+-*/<>!%@?_ \t\n\r") + ["\r\n", "    ", '"""', "'''
 def mutate(rng, s):
     if not s:
         return rng.choice(POOL)
+    if rng.random() < 0.25:
+        # cross every kind of mutation with "the input ends in a multi-byte scalar, no final newline"
+        t = mutate(rng, s).rstrip("\n")
+        return t + rng.choice(["\u00e9", " \u20ac", "\n# caf\u00e9", "\U0001f600", '"\u00e9', "{\u00e9"])
     k = rng.random()
+    if k < 0.08:
+        # delete one closer (brace, bracket, paren, quote): unterminated constructs run to the end of the file
+        pos = [i for i, c in enumerate(s) if c in "}])\"'"]
+        if pos:
+            i = rng.choice(pos)
+            return s[:i] + s[i + 1:]
     i = rng.randrange(len(s) + 1)
     if k < 0.25:
         return s[:i] + rng.choice(POOL) + s[i:]
@@ -158,6 +168,48 @@ def nesting(depth):
     return out
 
 
+NONASCII = ["\u00e9", "\u20ac", "\U0001f600"]      # 2-, 3- and 4-byte scalars
+
+
+def nonascii_programs():
+    """small programs whose text carries 2-, 3- and 4-byte scalars in every lexical position: string, triple-quoted
+    string, byte string, f-string literal part, f-string {expression} (plain, nested braces, escaped braces),
+    comment, identifier position (where it is an error), operator position."""
+    out = []
+    for c in NONASCII:
+        out += [
+            'def f(n: str) -> str:\n    return f"h%s {n} %s{n + "%s"}%s"\n# fin: caf%s\n' % (c, c, c, c, c),
+            'def g() -> str:\n    let s = "%s%s" # %s\n    return f"{s}%s{{%s}}{ {1: s}[1] }%s"\n' % (c, c, c, c, c, c),
+            'x = f"{%s}" + f\'{a%s + b}\' + f"{ {"%s": 1} }"\n' % (c, c, c),
+            'm = """%s\n%s""" + \'%s\' + b"%s" + "\\%s"\n%s = 1\n' % (c, c, c, c, c, c),
+            'if a:\n    b = [1, # %s\n      2]\n    c = f"{b[0]}%s"\n  %s\n' % (c, c, c),
+            'f"{%s' % c, 'f"{%s + b' % c, 'f"{a + %s' % c, "f'{%s" % c, 'f"{{%s' % c, 'f"{ {%s' % c, 'f"{ {a}%s' % c, 'f"%s{' % c,
+            'f"""a{%s' % c, "f\'\'\'x{%s" % c, 'f"}%s' % c, 'f"\\%s' % c, 'f"{a}{%s' % c, 'x = f"{%s"\n# %s' % (c, c),
+            'def greet(name: str) -> str:\n    return f"hello {name"\n\n# fin du fichier: caf%s' % c,
+            '"%s' % c, "'%s" % c, '"""%s' % c, '"\\%s' % c, 'b"%s' % c, 'b"\\x%s' % c, 'b"\\x4%s' % c, "# %s" % c, "%s" % c, "a%s" % c, "1%s" % c,
+            "1.%s" % c, "1e%s" % c, "(%s" % c, "x = [%s" % c, "  %s" % c, "\t#%s" % c, "a\n  b\n %s" % c,
+        ]
+    return out
+
+
+def nonascii_truncations(rng, limit=None):
+    """EVERY truncation point of every nonascii program, each as is and with a final newline, plus the same cut
+    followed by a non-ASCII scalar (so that the LAST character of the input is multi-byte at every cut)."""
+    out = []
+    for prog in nonascii_programs():
+        for i in range(len(prog) + 1):
+            cut = prog[:i]
+            out.append(cut)
+            out.append(cut + "\n")
+            out.append(cut + rng.choice(NONASCII))
+    out = list(dict.fromkeys(out))
+    if limit is not None and len(out) > limit:
+        must = [x for x in out if x and ord(x[-1]) > 127 and ("f\"" in x or "f'" in x)]
+        rest = [x for x in out if x not in set(must)]
+        out = must[:limit // 2] + rng.sample(rest, min(len(rest), limit - min(len(must), limit // 2)))
+    return out
+
+
 def literal_cases():
     base = ['"', "'", '"""', "'''", '"abc', "'abc\n", '"abc\\', '"""abc', '"""abc"', '"""abc""', 'f"', 'f"{', 'f"{x', 'f"{x}',
             'f"{{', 'f"}', 'f"\\', 'f"{x"}', 'b"', 'b"\\x', 'b"\\x4', 'b"\\', "b'é'", 'x = "a" "b', "x = ('a'", "[", "(", "{", ")", "]",
@@ -174,6 +226,39 @@ def literal_cases():
         wrap.append("def f() -> None:\n    " + b + "\n")
         wrap.append("def f() -> None:\n    x = (" + b + "\n")
     return wrap
+
+
+RUN_FPARTS = "fun src => fstring_parts src (clex src)"
+
+
+def real_fparts(binary, sources):
+    text = "".join((s.encode("utf-8").hex() or "-") + "\n" for s in sources)
+    out = [l for l in vlib.run_harness(binary, ["run", "c11", "fparts"], text).split("\n") if l]
+    if len(out) != len(sources):
+        raise vlib.Infra("c11 fparts: %d lines for %d cases" % (len(out), len(sources)))
+    res = []
+    for l in out:
+        if not l.startswith("FP F"):
+            res.append(None)        # rejected, panicked, or no f-string token
+            continue
+        items = []
+        for it in l[3:].split(";"):
+            p = it.split(" ")
+            exprs = [] if len(p) < 3 or p[2] == "" else [("" if h == "-" else bytes.fromhex(h).decode("utf-8")) for h in p[2].split(",")]
+            items.append((int(p[1]), exprs))
+        res.append(items)
+    return res
+
+
+def compare_fparts(s, real, model):
+    """the text of every {expression} part of every f-string token = the slice of the source the model delimits"""
+    offs = c10.byte_offsets(s)
+    idx = {b: k for k, b in enumerate(offs)}
+    want = [(idx.get(a, -1), ex) for (a, ex) in real]
+    got = [(a, [s[x:y] for (x, y) in parts]) for (a, parts) in model]
+    if want != got:
+        return "f-string expression parts differ: real %r, model %r" % (want[:4], got[:4])
+    return None
 
 
 # ------------------------------------------------------------------------------------------ known findings
@@ -255,6 +340,8 @@ def run(chk):
     lexs = c10.lexical_samples(rng, 150 if quick else 2000)
     rand = [random_utf8(rng, rng.randint(1, 12)) for _ in range(250 if quick else 4000)]
     lits = literal_cases()
+    lits += ['x = f"{a}"', 'x = f"a{b}c{d + 1}e"', 'x = f"{ {1: 2}[1] }"', 'x = f"{{a}} {b} }}"', "x = f'{a}' + f\"{b:>3}\"", 'x = f"{}"', 'x = f"{a}{b}{c}"',
+             'x = f"\u00e9{\u00e9\u20ac}\U0001f600{ {"\u00e9": 1} }"', 'x = f"\\{a}"', 'x = f"\\"{a}"', 'x = f"{a\nb}"', 'x = f"{a"}"', 'x = f"{f"{b}"}"', 'x = f"{{{a}}}"']
     trunc = []
     for _, s in small_files[:(6 if quick else 40)]:
         for _ in range(6):
@@ -262,12 +349,13 @@ def run(chk):
             trunc.append(mutate(rng, s))
     layout = ["".join(rng.choice("a \t\n\r#():\"") for _ in range(rng.randint(3, 10))) for _ in range(600 if quick else 6000)]
     groups = [("lexical", lexs, 150), ("random-utf8", rand, 150), ("literals", lits, 150), ("layout", layout, 150),
-              ("truncated-mutated", trunc, 8)]
+              ("truncated-mutated", trunc, 8), ("nonascii-truncations", nonascii_truncations(rng, 1200 if quick else None), 300)]
     model_ok = vlib.coq_build(["Lex/Chars.vo", "Lex/Layout.vo"])[0]
     if not model_ok:
         res["tie_ok"] = False
         res["broken"].append({"what": "model", "message": "Lex/Chars.v no longer builds"})
     n_corr = 0
+    n_fparts = 0
     import time as _t
     t0 = _t.time()
     for name, srcs, shard in groups:
@@ -283,10 +371,22 @@ def run(chk):
             why = c10.compare_model(s, r, m)
             if why:
                 corr_bad.append({"group": name, "source": s[:400], "why": why})
+        # payload tie for f-strings: the text of every {expression} part (FStringPart::Expr) against the model's ranges
+        fsrc = [s for s, r in zip(srcs, real) if r[0] != "panic" and not r[1] and any(k == 18 for (k, _, _) in r[0])]
+        if fsrc:
+            rp = real_fparts(binary, fsrc)
+            mp = vlib.coq_eval(c10.REQ, "list N", RUN_FPARTS, [c10.coq_src(s) for s in fsrc], shard=300, tag="c11fp" + name)
+            for s, r, m in zip(fsrc, rp, mp):
+                n_fparts += 1
+                why = "real lexer gave no f-string token on the second call" if r is None else \
+                    compare_fparts(s, r, [(a, [tuple(x) for x in parts]) for (a, parts) in m])
+                if why:
+                    corr_bad.append({"group": name + "/fparts", "source": s[:400], "why": why})
     vlib.log("[c11] correspondence %d cases in %.1fs" % (n_corr, _t.time() - t0))
     t0 = _t.time()
     chk.coverage["traces_validated_against_impl"] = n_corr
     chk.coverage["correspondence_mismatches"] = len(corr_bad)
+    chk.coverage["fstring_payload_cases"] = n_fparts
 
     # ---- 2. robustness run on the real pipeline
     cases = []
@@ -302,8 +402,12 @@ def run(chk):
     for _, s in small_files[:(3 if quick else len(small_files))]:
         for i in range(len(s) + 1):
             cases.append(("truncation", s[:i]))
+            if i % 3 == 0:
+                cases.append(("truncation+nonascii-eof", s[:i] + rng.choice(NONASCII)))
     for s in lits:
         cases.append(("literal/bracket", s))
+    for s in nonascii_truncations(rng):
+        cases.append(("nonascii-truncation", s))
     # regression stream of the repaired finding python-import-ident-panic: any package string must give Ok or a
     # GenerationError, never a panic
     for pk in ["my-pkg", "::requests", "a.b", "", "a b", "1x", "fn", "requests", "\u00e9", "self", "_", "r#x", "a::b", "x-", "-", "Self",
